@@ -1975,6 +1975,33 @@ class PyCdlib:
 
         return tmp_path
 
+    def _check_new_iso_file_path(self, iso_path, rr_name):
+        # type: (str, Optional[str]) -> None
+        """
+        An internal method to refuse an ISO9660 path of a file that cannot be
+        added (too deep, illegal name, missing parent, existing name, bad Rock
+        Ridge name) before anything has been changed.
+
+        Parameters:
+         iso_path - The ISO9660 path that is going to be added.
+         rr_name - The Rock Ridge name that is going to be used for it.
+        Returns:
+         Nothing.
+        """
+        iso_path_bytes = utils.normpath(iso_path)
+        if not self.rock_ridge and self.interchange_level < 4:
+            _check_path_depth(iso_path_bytes)
+        (name, parent) = self._iso_name_and_parent_from_path(iso_path_bytes)
+        _check_iso9660_filename(name, self.interchange_level)
+        if not parent.is_dir():
+            raise pycdlibexception.PyCdlibInvalidInput('Trying to add a child to a record that is not a directory')
+        self._check_rr_name(rr_name)
+        try:
+            self._find_iso_record(iso_path_bytes)
+        except pycdlibexception.PyCdlibInvalidInput:
+            return
+        raise pycdlibexception.PyCdlibInvalidInput('Failed adding duplicate name to parent')
+
     def _check_new_joliet_path(self, joliet_path):
         # type: (str) -> None
         """
@@ -5315,14 +5342,13 @@ class PyCdlib:
         if boot_dirrecord.inode is None:
             raise pycdlibexception.PyCdlibInternalError('Tried to add an empty boot dirrecord inode to the El Torito boot catalog')
 
+        bi_table = None
         if boot_info_table:
             orig_len = boot_dirrecord.get_data_length()
             bi_table = eltorito.EltoritoBootInfoTable()
             with inode.InodeOpenData(boot_dirrecord.inode, self.logical_block_size) as (data_fp, data_len):
                 bi_table.new(self.pvd, boot_dirrecord.inode, orig_len,
                              self._calculate_eltorito_boot_info_table_csum(data_fp, data_len))
-
-            boot_dirrecord.inode.add_boot_info_table(bi_table)
 
         system_type = 0
         if media_name == 'hdemul':
@@ -5341,23 +5367,6 @@ class PyCdlib:
                                                    media_name, system_type, efi,
                                                    bootable, platform_id)
         else:
-            # Step 2.
-            br = headervd.BootRecord()
-            br.new(b'EL TORITO SPECIFICATION')
-            self.brs.append(br)
-            # On a UDF ISO, adding a new Boot Record doesn't actually increase
-            # the size, since there are a bunch of gaps at the beginning.
-            if not self._has_udf:
-                num_bytes_to_add += self.logical_block_size
-
-            # Step 3.
-            self.eltorito_boot_catalog = eltorito.EltoritoBootCatalog(br)
-            self.eltorito_boot_catalog.new(br, boot_dirrecord.inode,
-                                           sector_count, boot_load_seg,
-                                           media_name, system_type, platform_id,
-                                           bootable)
-
-            # Step 4.
             rrname = ''
             if self.rock_ridge:
                 if rr_bootcatname is None:
@@ -5365,10 +5374,40 @@ class PyCdlib:
                 else:
                     rrname = rr_bootcatname
 
+            # Whatever would be refused further down (the names of the Boot
+            # Catalog file, the parameters of the Boot Catalog) is refused
+            # before anything is attached to the ISO.
+            self._check_new_iso_file_path(bootcatfile, rrname)
+            if joliet_bootcatfile:
+                self._check_new_joliet_path(joliet_bootcatfile)
+            if udf_bootcatfile:
+                self._check_new_udf_path(udf_bootcatfile)
+
+            # Step 2.
+            br = headervd.BootRecord()
+            br.new(b'EL TORITO SPECIFICATION')
+
+            # Step 3.
+            boot_catalog = eltorito.EltoritoBootCatalog(br)
+            boot_catalog.new(br, boot_dirrecord.inode, sector_count,
+                             boot_load_seg, media_name, system_type,
+                             platform_id, bootable)
+
+            self.brs.append(br)
+            # On a UDF ISO, adding a new Boot Record doesn't actually increase
+            # the size, since there are a bunch of gaps at the beginning.
+            if not self._has_udf:
+                num_bytes_to_add += self.logical_block_size
+            self.eltorito_boot_catalog = boot_catalog
+
+            # Step 4.
             num_bytes_to_add += self._add_fp(None, self.logical_block_size,
                                              False, bootcatfile, rrname,
                                              joliet_bootcatfile,
                                              udf_bootcatfile, None, True)
+
+        if bi_table is not None:
+            boot_dirrecord.inode.add_boot_info_table(bi_table)
 
         self._finish_add(0, num_bytes_to_add)
 
